@@ -1270,6 +1270,14 @@ func runCase(w *tr.Writer, seed uint64, idx int, focus string) {
 		}
 	}
 	quiet()
+	rec.mu.Lock()
+	stopping := rec.shutdown || rec.shutdownAsked || rec.acceptFatal
+	rec.mu.Unlock()
+	if !engineDown() && !stopping {
+		// C03/C04: the loop is idle and nobody asked for a shutdown: every accepted asynchronous request
+		// issued with a callback has had that callback
+		h.checkPending()
+	}
 
 	lap("drain")
 	// ---- stop
